@@ -23,6 +23,7 @@
 #include <unistd.h>
 #include <signal.h>
 #include <sys/time.h>
+#include <time.h>
 using namespace vh;
 
 // ---------------------------------------------------------------------------------------
@@ -38,7 +39,10 @@ static std::string g_trace;              // written only by the thread holding t
 static size_t g_chunk = 0;
 static char *g_ring = nullptr;
 static size_t g_ring_size = 0;
-static std::atomic<unsigned> g_weak(0);  // memory orders weaker than the proof assumes (bit set)
+// memory orders weaker than the proof assumes (bit set), one word per role so that recording them adds no
+// synchronisation between the two threads (an atomic here would hide the very race from ThreadSanitizer);
+// read by the controller after the line, when the threads have been joined / have handed the baton back
+static unsigned g_weak_bits[2] = {0, 0};
 static std::atomic<bool> g_decoy_bad(false);
 
 struct Role {                            // the role of the calling thread for the time of one operation
@@ -109,10 +113,11 @@ static void check_order(int var, bool store, int o) {
         if (!foreign) return;            // a thread may read its own index any way it likes
         weak = !(o == (int)std::memory_order_acquire || o == (int)std::memory_order_acq_rel || o == (int)std::memory_order_seq_cst);
     }
-    if (weak) g_weak.fetch_or(1u << ((store ? 12 : 0) + var * 6 + order_code(o)));
+    if (weak) g_weak_bits[t_tid == 0 ? 0 : 1] |= 1u << ((store ? 12 : 0) + var * 6 + order_code(o));
 }
 static std::string weak_report() {
-    unsigned w = g_weak.exchange(0);
+    unsigned w = g_weak_bits[0] | g_weak_bits[1];
+    g_weak_bits[0] = g_weak_bits[1] = 0;
     std::string s;
     for (int st = 0; st < 2; ++st) for (int var = 0; var < 2; ++var) for (int c = 0; c < 6; ++c)
         if (w & (1u << (st * 12 + var * 6 + c))) {
@@ -432,10 +437,19 @@ static void run_reader() {
         ++i;
     }
 }
+// between `conc` lines the workers must not burn CPU (the `seq` lines have a CPU-time limit and the
+// machine may be busy): after a while without a job they poll every 200 us instead of spinning
+static void wait_job(int tid) {
+    unsigned spins = 0;
+    while (verif::g_turn.load() != tid) {
+        if (++spins > 200000) usleep(200);
+        else if (spins > 2000) sched_yield();
+    }
+}
 static void worker(int tid) {
     verif::t_tid = tid;
     for (;;) {
-        verif::wait_turn(tid);
+        wait_job(tid);
         if (g_job.quit) break;
         if (tid == 0) run_writer(); else run_reader();
         g_job.done[tid] = true;
@@ -523,10 +537,20 @@ static std::string soak_line(const std::vector<std::string> &w) {
         }
         wdone.store(true);
     });
+    // no message for 5 s of wall-clock time while the writer still has messages to send: the queue is stuck
+    // (e.g. hasNext() says "nothing" while the ring is full) - a failure, not something to wait 10 minutes for
+    auto now_s = [] { struct timespec ts; clock_gettime(CLOCK_MONOTONIC, &ts); return (double)ts.tv_sec + ts.tv_nsec * 1e-9; };
     std::thread rt([&] {
-        unsigned next = 0;
+        unsigned next = 0, last_next = 0;
         unsigned long polls = 0;
+        double last_progress = now_s();
         while (next < count && err.empty()) {
+            if (next != last_next) { last_next = next; last_progress = now_s(); }
+            else if ((polls & 1023) == 0 && now_s() - last_progress > 5.0) {
+                err = "stalled: no message for 5 s at message " + std::to_string(next) + " (hasNext=" +
+                      (L.has(false) ? "1" : "0") + ", writer " + (wdone.load() ? "done" : "not done") + ")";
+                break;
+            }
             if ((++polls & 15) == 0) {
                 // peek along the lookahead queue: must replay next, next+1, … without consuming
                 unsigned k = next;
@@ -576,9 +600,9 @@ static std::string step(const std::string &line) {
     auto w = words(line);
     if (w.empty()) return "bad-op";
     std::string out = "bad-op";
-    verif::g_weak.store(0);
+    verif::g_weak_bits[0] = verif::g_weak_bits[1] = 0;
     verif::g_decoy_bad.store(false);
-    if (w[0] == "seq") { arm(60, 2); out = seq_line(w); }
+    if (w[0] == "seq") { arm(60, 3); out = seq_line(w); }
     else if (w[0] == "conc") { arm(10, 0); out = conc_line(w); }
     else if (w[0] == "soak") { arm(600, 0); out = soak_line(w); }
     arm(0, 0);
